@@ -280,15 +280,28 @@ def check_clear(run, rule):
     rec, tabs, items = container_sets(run, rule)
     cl = facts.fn("CDNS::CdnsBlock::clear", rule=rule)
     cleared = set()
-    for c in ir.calls_in(cl["body"]):
-        if callee_name(c) == "clear":
-            p = path(c.get("recv"))
-            if p and len(p) == 2 and p[0] == "this":
-                cleared.add(p[1])
+    conditional = {}
+    envc = ir.Env(cl["body"])
+    for st, g, loops in ir.guarded_statements(cl["body"], envc):
+        if st.get("k") in ("IfCond", "LoopHead", "SwitchHead"):
+            continue
+        for c in ir.calls_in(st):
+            if callee_name(c) == "clear":
+                p = path(c.get("recv"))
+                if p and len(p) == 2 and p[0] == "this":
+                    # unconditional, or skipped only when this very container is already empty
+                    extra = [a for a in ir.conjuncts(g) if a != ("T",) and ("this.%s" % p[1]) not in repr(a) and ("'this', '%s'" % p[1]) not in repr(a)]
+                    if not extra:
+                        cleared.add(p[1])
+                    else:
+                        conditional[p[1]] = g
     missing = [m for m in tabs + items if m not in cleared]
+    cond_missing = [m for m in missing if m in conditional]
     run.ob(rule, "CdnsBlock::clear:all-containers", not missing, cl, cl["line"],
            "clear() empties all %d tables and %d item containers" % (len(tabs), len(items)) if not missing else
-           "clear() does not empty %s: entries of the previous block stay visible in the next one" % missing)
+           ("clear() empties %s only when %s: a block in another state keeps these entries, and they stay visible (with their old indices) in the "
+            "next block" % (cond_missing, ir.show_f(conditional[cond_missing[0]])) if cond_missing else
+            "clear() does not empty %s: entries of the previous block stay visible in the next one" % missing))
     # statistics and earliest time reset
     assigns = {lp: rhs for lp, rhs, node in consumption.assignment_targets(ir.stmts(cl["body"])) if lp}
     ok = ("this", "m_block_preamble", "earliest_time") in assigns and ("this", "m_block_statistics") in assigns
